@@ -5,6 +5,7 @@ mod diff;
 mod engine;
 mod gen;
 mod inproc;
+mod model;
 mod props;
 mod ptext;
 mod ws;
@@ -20,6 +21,10 @@ macro_rules! dispatch {
     ($id:expr, $f:ident, $($arg:expr),*) => {
         match $id {
             "C01" => $f(&props::c01::C01, $($arg),*),
+            "C02" => $f(&props::place::C02, $($arg),*),
+            "C03" => $f(&props::place::C03, $($arg),*),
+            "C04" => $f(&props::c04::C04, $($arg),*),
+            "C20" => $f(&props::place::C20, $($arg),*),
             "C11" => $f(&props::c11::C11, $($arg),*),
             other => {
                 eprintln!("unknown property {}", other);
